@@ -352,6 +352,10 @@ where
         }
 
         let value = match (values, inline_binary) {
+            // an attribute without a value: an empty sequence if it is one
+            (None, None) if vr == VR::SQ => {
+                Value::Sequence(Vec::<InMemDicomObject<D>>::new().into())
+            }
             (None, None) => PrimitiveValue::Empty.into(),
             (None, Some(inline_binary)) => {
                 // decode from Base64
